@@ -1325,8 +1325,13 @@ class AsyncBackgroundBatcher(Generic[A_contra, R_co]):
                     len(args), self.func,
                 )
                 results = self.func(args)
+                # Any async iterable will do: what is iterated (and has
+                # to be finished below) need not be the object returned
+                iterator = results
                 try:
-                    async for key, result in results:
+                    if hasattr(results, '__aiter__'):
+                        iterator = results.__aiter__()
+                    async for key, result in iterator:
                         fut = futs[key]
                         if isinstance(result, StopIteration):
                             # Can't be raised out of a future: awaiting
@@ -1347,9 +1352,11 @@ class AsyncBackgroundBatcher(Generic[A_contra, R_co]):
                 finally:
                     # If the loop was left early the function is still
                     # suspended: finish it before giving up the slot
-                    aclose = getattr(results, 'aclose', None)
-                    if aclose is not None:
-                        await aclose()
+                    for it in {id(iterator): iterator,
+                               id(results): results}.values():
+                        aclose = getattr(it, 'aclose', None)
+                        if aclose is not None:
+                            await aclose()
         except BaseException as e:
             # Also covers errors which aren't an Exception, like the
             # CancelledError of something awaited by the function:
